@@ -82,6 +82,10 @@ func (n *Node) Aggregating() *Node { c := n.clone(); c.Agg = true; return c }
 func (n *Node) extJSON() string {
 	sc := scopeJSON[n.Scope]
 	switch n.Kind {
+	case KErr:
+		// an ordinary modifier that fails for the messages that ask for it: a header filter on "X-Err: 1" around a
+		// header.Copy into Content-Length of a header that does not exist (strconv refuses the empty string)
+		return `{"header.Filter":{` + sc + `"name":"X-Err","value":"1","modifier":{"header.Copy":{"from":"X-Not-A-Number","to":"Content-Length"}}}}`
 	case KStatus:
 		return `{"status.Verifier":{` + sc + `"statusCode":200}}`
 	case KHeader:
@@ -210,6 +214,7 @@ type Attrs struct {
 	ReqCk, ResCk               []int    // cookies s<i>=1 (Cookie on the request, Set-Cookie on the response)
 	Status                     int
 	Bad                        bool
+	ReqErr, ResErr             bool // header X-Err: 1 on the request / the response (the err modifiers fail on it)
 }
 
 // Shape is a set of concrete attributes that override what the Met bits of a message say.
@@ -235,8 +240,8 @@ var Shapes = []Shape{
 	{Name: "path-elsewhere", Kinds: []int{KURL, KPingback}, Apply: func(a *Attrs) { a.Path = "/elsewhere" }},
 }
 
-func (m Msg) attrs(t *Node) Attrs {
-	a := Attrs{Method: "DELETE", Scheme: "http", Host: "bad.example", Path: "/other", Status: 500, Bad: m.Bad}
+func (m Msg) attrs(t *Node) (a Attrs) {
+	a = Attrs{Method: "DELETE", Scheme: "http", Host: "bad.example", Path: "/other", Status: 500, Bad: m.Bad}
 	if m.met(KMethod) {
 		a.Method = "GET"
 	}
@@ -258,6 +263,20 @@ func (m Msg) attrs(t *Node) Attrs {
 	if m.Shape != 0 {
 		Shapes[m.Shape].Apply(&a)
 	}
+	a.ReqErr, a.ResErr = m.Err&ErrReq != 0, m.Err&ErrRes != 0
+	if m.Via == ViaConnectFail {
+		// CONNECT host:port - no scheme, no path, no query (hence no query-carried routing either)
+		a.Method, a.Scheme, a.Host, a.Path, a.QV = "CONNECT", "", "bad.example:443", "", nil
+	}
+	defer func() {
+		if m.Via != 0 {
+			// the proxy answers itself: 502, none of the headers an origin would have sent
+			a.Status, a.ResVh, a.ResXS, a.ResCk, a.ResErr = 502, nil, nil, nil, false
+			if m.Via == ViaConnectFail {
+				a.QSel = nil
+			}
+		}
+	}()
 	for i := 0; i < 32; i++ {
 		req := m.Sel&(1<<uint(i)) != 0
 		res := (m.Sel^m.Flip)&(1<<uint(i)) != 0
@@ -305,10 +324,28 @@ func (m Msg) attrs(t *Node) Attrs {
 // BuildFor constructs the request and the response of the message for tree t (nil: all routing bits travel
 // as query parameters, as in the original families).
 func (m Msg) BuildFor(t *Node, id int) (*http.Request, *http.Response) {
-	if (t == nil || !t.ext) && m.Flip == 0 && m.Shape == 0 {
+	if (t == nil || !t.ext) && m.Flip == 0 && m.Shape == 0 && m.Err == 0 && m.Via == 0 {
 		return m.Build(id)
 	}
 	a := m.attrs(t)
+	if m.Via == ViaConnectFail {
+		// the id travels in the first label of the target (there is no query)
+		host := "x" + strconv.Itoa(id) + "." + a.Host
+		req := &http.Request{Method: "CONNECT", URL: &url.URL{Host: host}, Proto: "HTTP/1.1", ProtoMajor: 1, ProtoMinor: 1, Header: http.Header{}, Body: http.NoBody, Host: host}
+		for _, v := range a.ReqVh {
+			req.Header.Add("X-Vh", v)
+		}
+		for _, i := range a.ReqXS {
+			req.Header.Set("X-S"+strconv.Itoa(i), "1")
+		}
+		for _, i := range a.ReqCk {
+			req.AddCookie(&http.Cookie{Name: "s" + strconv.Itoa(i), Value: "1"})
+		}
+		if a.ReqErr {
+			req.Header.Set("X-Err", "1")
+		}
+		return req, nil
+	}
 	q := "id=" + strconv.Itoa(id)
 	for _, v := range a.QV {
 		q += "&qv=" + v
@@ -352,6 +389,12 @@ func (m Msg) BuildFor(t *Node, id int) (*http.Request, *http.Response) {
 	}
 	for _, i := range a.ResCk {
 		res.Header.Add("Set-Cookie", (&http.Cookie{Name: "s" + strconv.Itoa(i), Value: "1"}).String())
+	}
+	if a.ReqErr {
+		req.Header.Set("X-Err", "1")
+	}
+	if a.ResErr {
+		res.Header.Set("X-Err", "1")
 	}
 	return req, res
 }
@@ -397,42 +440,60 @@ func takesTrue(x *Node, a *Attrs, side int) bool {
 }
 
 // evalX lists what an exchange makes the verifiers of the tree record (taken as a non-API exchange), from the
-// concrete attributes of the message and the documented meaning of every option.
-func evalX(t *Node, m Msg, id int) []Rec {
+// concrete attributes of the message and the documented meaning of every option; it also tells whether the
+// request modifiers / the response modifiers of the tree return an error for it.
+//
+// Errors (round 6): only an err modifier (KErr) fails, and only for a message that asks for it on that side. A
+// filter returns what the branch it ran returns. fifo.Group, as documented at SetAggregateErrors: "When false
+// [the default], if an error is returned by a modifier, the error is returned by ModifyRequest/Response and no
+// further modifiers are run. When true, the Group will continue to execute consecutive modifiers" - so the
+// verifiers after a failing modifier of a non-aggregating group are not evaluated for that message.
+func evalX(t *Node, m Msg, id int) (recs []Rec, reqErr, resErr bool) {
 	a := m.attrs(t)
 	sid := strconv.Itoa(id)
 	var out []Rec
-	var rec func(x *Node, side int)
-	rec = func(x *Node, side int) {
+	var rec func(x *Node, side int) bool
+	rec = func(x *Node, side int) bool {
 		if !scopeAllows(x.Scope, side) {
-			return
+			return false
 		}
 		switch x.Kind {
-		case KGroup:
-			for _, k := range x.Kids {
-				rec(k, side)
+		case KErr:
+			if side == SideRes {
+				return a.ResErr
 			}
+			return a.ReqErr
+		case KGroup:
+			failed := false
+			for _, k := range x.Kids {
+				if rec(k, side) {
+					failed = true
+					if !x.Agg {
+						break
+					}
+				}
+			}
+			return failed
 		case KFilterT:
 			if takesTrue(x, &a, side) {
-				rec(x.Kids[0], side)
+				return rec(x.Kids[0], side)
 			}
 		case KFilterE:
 			if !takesTrue(x, &a, side) {
-				rec(x.Kids[0], side)
+				return rec(x.Kids[0], side)
 			}
 		case KFilterTE:
 			if takesTrue(x, &a, side) {
-				rec(x.Kids[0], side)
-			} else {
-				rec(x.Kids[1], side)
+				return rec(x.Kids[0], side)
 			}
+			return rec(x.Kids[1], side)
 		case KFailure:
 			if side == SideReq {
 				out = append(out, Rec{Tok: "failure" + strconv.Itoa(x.ID) + "#" + sid, Leaf: x.ID, Kind: KFailure, Side: SideReq, MsgID: id})
 			}
 		case KPingback:
 			if side != SideReq {
-				return
+				return false
 			}
 			seen := a.Path == "/ping"
 			if x.Var == 1 {
@@ -464,7 +525,7 @@ func evalX(t *Node, m Msg, id int) []Rec {
 			}
 		case KURL:
 			if side != SideReq {
-				return
+				return false
 			}
 			unmet := a.Host != "good.example"
 			if x.Var == 1 {
@@ -475,7 +536,7 @@ func evalX(t *Node, m Msg, id int) []Rec {
 			}
 		case KQuery:
 			if side != SideReq {
-				return
+				return false
 			}
 			want := "ok"
 			if x.Var == 1 {
@@ -485,10 +546,20 @@ func evalX(t *Node, m Msg, id int) []Rec {
 				out = append(out, Rec{Tok: "query#" + sid, Leaf: x.ID, Kind: KQuery, Side: SideReq, MsgID: id})
 			}
 		}
+		return false
 	}
-	rec(t, SideReq)
-	rec(t, SideRes)
-	return out
+	reqErr = rec(t, SideReq)
+	resErr = rec(t, SideRes)
+	return out, reqErr, resErr
+}
+
+// EvalErr tells whether the request modifiers / the response modifiers of the tree return an error for message m.
+func EvalErr(t *Node, m Msg) (reqErr, resErr bool) {
+	if !t.errs || m.Err == 0 {
+		return false, false
+	}
+	_, reqErr, resErr = evalX(t, m, 0)
+	return
 }
 
 // ---- alphabets of the extended families ----
@@ -788,5 +859,191 @@ func FailQTrees() []*Node {
 		FilterTE(Leaf(KFailure), Leaf(KStatus)).Number(),
 		FilterE(Leaf(KHeader)).Number(),
 	)
+	return out
+}
+
+// ---- round 6: groups that also hold an ordinary modifier that can fail ("errmod"), and traffic that goes through
+// a real martian.Proxy ("proxy") ----
+
+// Err returns an err modifier node (KErr) with the given scope (ScNone: both sides, ScReq, ScRes).
+func Err(scope int) *Node { return &Node{Kind: KErr, Scope: scope} }
+
+// errSides tells on which sides some err modifier of the tree takes part.
+func errSides(t *Node) (req, res bool) {
+	var rec func(x *Node)
+	rec = func(x *Node) {
+		if x.Kind == KErr {
+			req = req || t.Active(x.ID, SideReq)
+			res = res || t.Active(x.ID, SideRes)
+		}
+		for _, k := range x.Kids {
+			rec(k)
+		}
+	}
+	rec(t)
+	return
+}
+
+// AlphabetErr is the alphabet of a tree with err modifiers: every message of the original alphabet (routing x
+// met/unmet decision paths, API-marked messages) x every subset of the sides on which an err modifier of the tree
+// takes part (the message asks the err modifiers to fail on the request side, on the response side, on both, not
+// at all).
+func AlphabetErr(t *Node) []Msg {
+	req, res := errSides(t)
+	errs := []uint8{0}
+	if req {
+		errs = append(errs, ErrReq)
+	}
+	if res {
+		errs = append(errs, ErrRes)
+	}
+	if req && res {
+		errs = append(errs, ErrReq|ErrRes)
+	}
+	var out []Msg
+	for _, m := range Alphabet(t) {
+		for _, e := range errs {
+			m.Err = e
+			out = append(out, m)
+		}
+	}
+	return out
+}
+
+// errScopes lists the scopes of an err modifier that share a side with a verifier of the given kind.
+func errScopes(kind int) []int {
+	switch kind {
+	case KStatus:
+		return []int{ScNone, ScRes}
+	case KHeader:
+		return []int{ScNone, ScReq, ScRes}
+	}
+	return []int{ScNone, ScReq}
+}
+
+// ErrTrees: a verifier of every kind before / after an err modifier (every scope that shares a side with the
+// verifier) in a plain and in an aggregating group; an err modifier between two verifiers; a group with an err
+// modifier nested in a group (every combination of aggregation); groups with an err modifier in the branches of a
+// filter and an err modifier as the (only) branch of a filter in a group.
+func ErrTrees(tier string) []*Node {
+	var out []*Node
+	grp := func(agg bool, kids ...*Node) *Node {
+		g := Group(kids...)
+		g.Agg = agg
+		return g
+	}
+	for k := 0; k < NumLeafKinds; k++ {
+		for _, es := range errScopes(k) {
+			if tier != "thorough" && k != KHeader && es != ScNone {
+				continue // quick: the scoped err modifiers only around the verifier that has both sides
+			}
+			for _, agg := range []bool{false, true} {
+				out = append(out, grp(agg, Leaf(k), Err(es)).Number(), grp(agg, Err(es), Leaf(k)).Number())
+			}
+		}
+	}
+	pairs := [][2]int{{KHeader, KStatus}, {KFailure, KMethod}, {KStatus, KHeader}, {KPingback, KFailure}, {KURL, KQuery}}
+	if tier == "thorough" {
+		pairs = nil
+		for a := 0; a < NumLeafKinds; a++ {
+			for b := 0; b < NumLeafKinds; b++ {
+				pairs = append(pairs, [2]int{a, b})
+			}
+		}
+	}
+	for _, p := range pairs {
+		for _, agg := range []bool{false, true} {
+			out = append(out, grp(agg, Leaf(p[0]), Err(ScNone), Leaf(p[1])).Number())
+		}
+	}
+	for _, p := range [][2]int{{KHeader, KStatus}, {KFailure, KMethod}, {KStatus, KHeader}} {
+		a, b := Leaf(p[0]), Leaf(p[1])
+		for _, in := range []bool{false, true} {
+			for _, outer := range []bool{false, true} {
+				out = append(out, grp(outer, grp(in, a, Err(ScNone)), b).Number(), grp(outer, b, grp(in, Err(ScNone), a)).Number())
+			}
+		}
+	}
+	for _, p := range [][2]int{{KHeader, KStatus}, {KFailure, KFailure}} {
+		a, b := Leaf(p[0]), Leaf(p[1])
+		out = append(out,
+			FilterE(Group(a, Err(ScNone))).Number(),
+			FilterT(Group(Err(ScNone), a)).Number(),
+			FilterTE(Group(a, Err(ScNone)), b).Number(),
+			FilterTE(b, Group(Err(ScNone), a)).Number(),
+		)
+		for _, agg := range []bool{false, true} {
+			out = append(out, grp(agg, FilterT(Err(ScNone)), a).Number(), grp(agg, FilterE(Err(ScNone)), a, b).Number())
+		}
+	}
+	return out
+}
+
+// AlphabetProxy is the alphabet of the through-the-proxy family for a tree: every plain message of the original
+// alphabet (routing x met/unmet decision paths), each also with the upstream round trip failing (the proxy answers
+// 502 itself); a CONNECT whose target cannot be dialled (the proxy answers 502 itself), with the wanted header on
+// the request as well if the tree holds a header verifier; for every routing path that reaches a verifier a request
+// addressed to the proxy's own API with every expectation unmet.
+func AlphabetProxy(t *Node) []Msg {
+	var out []Msg
+	seen := map[Msg]bool{}
+	add := func(m Msg) {
+		if !seen[m] {
+			seen[m] = true
+			out = append(out, m)
+		}
+	}
+	base := Alphabet(t)
+	for _, m := range base {
+		if !m.API {
+			add(m)
+		}
+	}
+	for _, m := range base {
+		if !m.API {
+			m.Via = ViaFaultRT
+			add(m)
+		}
+	}
+	add(Msg{Via: ViaConnectFail})
+	for _, l := range t.Leaves() {
+		if l.Kind == KHeader {
+			add(Msg{Via: ViaConnectFail, Met: bits(KHeader)})
+			break
+		}
+	}
+	for _, m := range base {
+		if m.API && !m.Bad && m.Met == 0 {
+			add(m)
+		}
+	}
+	return out
+}
+
+// ProxyTrees: the trees played through a real proxy.
+func ProxyTrees(tier string) []*Node {
+	var out []*Node
+	for k := 0; k < NumLeafKinds; k++ {
+		out = append(out, Leaf(k).Number())
+	}
+	out = append(out,
+		Group(Leaf(KStatus), Group(Leaf(KHeader))).Number(),
+		Group(Leaf(KFailure), Leaf(KStatus)).Number(),
+		FilterE(Leaf(KStatus)).Number(),
+		FilterT(Leaf(KHeader)).Number(),
+		FilterTE(Leaf(KHeader), Leaf(KStatus)).Number(),
+		FilterTE(Leaf(KStatus), Leaf(KStatus)).With(FKHeader).Number(),
+	)
+	if tier == "thorough" {
+		for a := 0; a < NumLeafKinds; a++ {
+			out = append(out, FilterE(Leaf(a)).With(FKCookie).Number(), FilterT(Leaf(a)).Number(), Group(Leaf(a)).Scoped(ScRes).Number())
+			for b := 0; b < NumLeafKinds; b++ {
+				if a != KStatus && a != KHeader && b != KStatus && b != KHeader {
+					continue // at least one verifier with a response side
+				}
+				out = append(out, Group(Leaf(a), Leaf(b)).Number(), FilterTE(Leaf(a), Leaf(b)).Number())
+			}
+		}
+	}
 	return out
 }
